@@ -1,6 +1,7 @@
 package props
 
 import (
+	"runtime"
 	"encoding/json"
 	"fmt"
 	"math"
@@ -41,6 +42,8 @@ type c15Case struct {
 	Seqs  []string `json:"seqs"`  // rows, named a, b, c ...
 	Ref   string   `json:"ref"`   // "" = no reference, a row name, or a name no row has
 	Start int      `json:"start"` // Mask
+	// Procs (long rows): GOMAXPROCS during the case (0 = unchanged)
+	Procs int `json:"gomaxprocs,omitempty"`
 	Len   int      `json:"len"`   // Mask
 	Repl  string   `json:"repl"`
 	NoGap bool     `json:"nogap"` // Mask
@@ -1105,6 +1108,9 @@ func c15Tasks(tier string) []mc.Task {
 // every length 5..40 and 63..65 (several columns per step with a tail would show).
 func c15Long(c *mc.Ctx, cs c15Case) {
 	c.Eval()
+	if cs.Procs > 0 {
+		defer runtime.GOMAXPROCS(runtime.GOMAXPROCS(cs.Procs))
+	}
 	viol := func(clause, desc string) {
 		c.Violation("C15/"+strings.TrimPrefix(cs.Op, "long-")+"/long-rows/"+clause, fmt.Sprintf("%s: case %s", desc, jsonStr(cs)), cs)
 	}
@@ -1206,6 +1212,11 @@ func c15LongTask() mc.Task {
 								continue
 							}
 							c15Long(c, c15Case{Op: "long-Mask", Alpha: "nt", Seqs: seqs, Ref: ref, Start: w[0], Len: w[1], Repl: repl, NoGap: opt&1 != 0, NoRef: opt&2 != 0})
+							if L >= 300 && opt == 0 {
+								for _, procs := range []int{2, 3, 8} {
+									c15Long(c, c15Case{Op: "long-Mask", Alpha: "nt", Seqs: seqs, Ref: ref, Start: w[0], Len: w[1], Repl: repl, Procs: procs})
+								}
+							}
 						}
 					}
 				}
@@ -1214,6 +1225,11 @@ func c15LongTask() mc.Task {
 				for _, ref := range []string{"", "b"} {
 					for max := 0; max <= 2; max++ {
 						c15Long(c, c15Case{Op: "long-MaskOccurences", Alpha: "nt", Seqs: seqs, Ref: ref, Repl: repl, Max: max})
+						if L >= 300 {
+							for _, procs := range []int{3, 8} {
+								c15Long(c, c15Case{Op: "long-MaskOccurences", Alpha: "nt", Seqs: seqs, Ref: ref, Repl: repl, Max: max, Procs: procs})
+							}
+						}
 					}
 				}
 			}
